@@ -153,6 +153,14 @@ std::string classify_not_ok(const std::string& d) {
     else if (cur && line.compare(0, 20, "index_first_pending ") == 0) cur->pend = atol(line.c_str() + 20);
     else if (cur == &gs && line.compare(0, 5, "size ") == 0 && (line.find(" P ") != std::string::npos || line.find(" P(") != std::string::npos || line.find(" P\n") != std::string::npos || line.rfind(" P") == line.size() - 2)) gs.has_point = true;
   }
+  // the two systems of a polyhedron have its topology, hence the same one
+  { size_t a = d.find("\ncon_sys ("), b = d.find("\ngen_sys (");
+    if (a != std::string::npos && b != std::string::npos) {
+      size_t ta = d.find("topology ", a), tb = d.find("topology ", b);
+      if (ta != std::string::npos && tb != std::string::npos && ta < b) {
+        std::string xa = d.substr(ta + 9, d.find('\n', ta) - ta - 9), xb = d.substr(tb + 9, d.find('\n', tb) - tb - 9);
+        if (xa != xb) return "con_sys-vs-gen_sys-topology";
+      } } }
   const bool ZE = fl["ZE"], EM = fl["EM"], CM = fl["CM"], GM = fl["GM"], CS = fl["CS"], GS = fl["GS"], CP = fl["CP"], GP = fl["GP"], SC = fl["SC"], SG = fl["SG"];
   (void) ZE; (void) CM; (void) GM;
   if (EM) { if (CP || GP) return "empty-with-pending"; if (cs.rows && cs.cols != space_dim) return "space_dim-vs-con_sys"; if (cs.rows > 1) return "empty-with-several-constraints"; return "empty-other"; }
@@ -390,7 +398,10 @@ bool invoke(const fi::Scen& sc, hx::Rng saved, Ctx& c, bool& leaked_key_seen, st
   try { sc.fn(c); }
   catch (const std::exception& e) {
     g_track = false; fi::disarm_alloc(); abandon_expensive_computations = 0;
-    hx::violation(std::string("harness.bug.faultinj.scenario_threw.") + sc.name, c.where() + " :: " + fi::exc_class(e) + ": " + e.what());
+    // after an injected fault has propagated, an exception from the scenario's own follow-up statements (taking the value of the
+    // object, building the comparison copy) means the object involved cannot be used: that is the property's business, not a harness bug
+    if (c.mode >= fi::ALLOC && (c.threw || c.fired)) c.fail("unusable", std::string("using the objects after the exceptional exit throws ") + fi::exc_class(e) + ": " + e.what());
+    else hx::violation(std::string("harness.bug.faultinj.scenario_threw.") + sc.name, c.where() + " :: " + fi::exc_class(e) + ": " + e.what());
     return false;
   }
   g_track = false;
@@ -464,7 +475,9 @@ void alloc_like_case(const fi::Scen& sc, int kind) {
 
   if (kind == fi::ALLOC) {
     hx::count("alloc.points_total", N);
-    std::vector<long> ks = pick(N, hx::opt().geti("points", 24), 10);
+    // scenarios whose exceptional paths are narrow windows of a long computation get a denser stride
+    const bool dense = strstr(sc.name, "strong_minimization") != 0;
+    std::vector<long> ks = pick(N, hx::opt().geti("points", dense ? 240 : 24), 10);
     for (size_t i = 0; i < ks.size(); ++i) {
       Ctx c; c.mode = fi::ALLOC; c.k = ks[i];
       trace_line(" k=" + std::to_string(ks[i]));
@@ -541,7 +554,10 @@ void case_body() {
   const unsigned long nsc = g_scen.size();
   static unsigned long stride = 0;
   if (!stride) { stride = (nsc * 618UL / 1000UL) | 1UL; while (std::__gcd(stride, nsc) != 1) stride += 2; }
-  const fi::Scen& sc = *g_scen[(size_t) ((((unsigned long) hx::st().cur_case % nsc) * stride + (unsigned long) (hx::opt().seed % 1000003) * 7919UL) % nsc)];
+  const fi::Scen* scp = g_scen[(size_t) ((((unsigned long) hx::st().cur_case % nsc) * stride + (unsigned long) (hx::opt().seed % 1000003) * 7919UL) % nsc)];
+  // focus scenarios (rarely taken exceptional paths) are visited more often than the uniform walk would
+  if (hx::opt().gets("scen", "").empty() && hx::rnd(0, 99) < 3) for (size_t i = 0; i < g_scen.size(); ++i) if (strstr(g_scen[i]->name, "strong_minimization")) { scp = g_scen[i]; hx::count("focus_cases"); break; }
+  const fi::Scen& sc = *scp;
   alloc_like_case(sc, kind == "alloc" ? fi::ALLOC : kind == "abandon" ? fi::ABANDON : fi::WEIGHT);
 }
 
